@@ -309,7 +309,7 @@ pub fn run(pc: &PropCtx) {
     );
     pc.assume("the matcher's find_at on the whole input is trusted here (the property is about the searcher's multi-line loop)");
     pc.assume("when the advance rule and the regex crate's iterator rule give different line sets, either is accepted (counted as iteration_ambiguous)");
-    let cases = pc.tier.pick(30_000, 600_000);
+    let cases = pc.tier.pick(150_000, 1_500_000);
     pc.run_tape("multi_line", cases, (128, 1500), gen_case, check);
     pc.require_class("multi_line:match_spans_lines", cases as u64 / 20);
 }
